@@ -82,7 +82,7 @@ Section CrashProofs.
   Lemma inv_step : forall st x, Inv st -> step_ok st x = true -> Inv (do_step st x).
   Proof.
     intros st x [Hid Hph Hpend Hdb Hnd Hsy Hret] Hok.
-    destruct x as [i|i|i|i|i v|j i|c i|c|i]; simpl in Hok; constructor; simpl; try assumption.
+    destruct x as [i|i|i|i|i v|j i|c i|c|i| |i v]; simpl in Hok; constructor; simpl; try assumption.
     - (* SStart *) intros i0. upd_cases i0 i; [apply Hid | apply Hid].
     - intros i0. upd_cases i0 i; [exact I | apply Hph].
     - (* SCosts *) intros i0. upd_cases i0 i; [apply Hid | apply Hid].
@@ -100,7 +100,7 @@ Section CrashProofs.
     - intros i0. upd_cases i0 j; [|apply Hph].
       apply andb_true_iff in Hok. destruct Hok as [Hok _]. apply Nat.eqb_eq in Hok.
       pose proof (Hph i) as P. rewrite Hok in P. simpl in *. destruct P as [P1 [P2 _]].
-      repeat split; [exact P1 | exact P2 | right; reflexivity].
+      repeat split; [exact P1 | exact P2 | right; left; reflexivity].
     - (* SExec *) intros c0 k r. upd_cases c0 c; [|apply Hpend].
       intros Hin. apply in_app_or in Hin. destruct Hin as [Hin|[Hin|[]]]; [eapply Hpend; exact Hin|].
       inversion Hin; subst. apply Nat.eqb_eq in Hok. pose proof (Hph k) as P. rewrite Hok in P.
@@ -111,6 +111,14 @@ Section CrashProofs.
     - intros i Hin. apply apply_pending_keys. apply in_app_or in Hin. destruct Hin as [Hin|Hin]; [left; exact Hin | right; apply Hsy; exact Hin].
     - intros i Hin. apply in_or_app. right. apply Hret. exact Hin.
     - (* SReturn *) intros i0 [<-|Hin]; [apply existsb_zeqb_in; exact Hok | apply Hret; exact Hin].
+    - (* SReopen *) intros i. destruct (lookup i (Crash.c_db st)) as [r|] eqn:E; [|apply Hid].
+      destruct (Hdb i r E) as [x [-> [Hx _]]]. unfold loaded_of_row. rewrite from_to_dict. simpl. exact Hx.
+    - intros i. destruct (lookup i (Crash.c_db st)) as [r|] eqn:E; [|apply Hph].
+      destruct (Hdb i r E) as [x [-> [Hx [Hc [Hs _]]]]]. unfold loaded_of_row. rewrite from_to_dict. simpl.
+      repeat split; [exact Hc | exact Hs | right; right; reflexivity].
+    - intros c k r [].
+    - (* SNew *) intros i0. upd_cases i0 i; [reflexivity | apply Hid].
+    - intros i0. upd_cases i0 i; [exact I | apply Hph].
   Qed.
 
   Lemma legal_app : forall p s st, legal st (p ++ s) = legal st p && legal (run_steps p st) s.
@@ -147,10 +155,10 @@ Section CrashProofs.
     exists x, from_dict r = Some (view_of x) /\ v_id (view_of x) = JNum (NInt k) /\
               v_vector (view_of x) = JArr (i_vector x) /\ v_costs (view_of x) = JArr (objective (i_vector x)) /\
               v_costs_signed (view_of x) = signed (i_vector x) (objective (i_vector x)) /\
-              (v_state (view_of x) = JStr "evaluated" \/ v_state (view_of x) = JStr "empty").
+              (v_state (view_of x) = JStr "evaluated" \/ v_state (view_of x) = JStr "empty" \/ v_state (view_of x) = JNull).
   Proof.
     intros k r [x [-> [Hk [Hc [Hs Hst]]]]]. exists x. rewrite from_to_dict. split; [reflexivity|].
-    simpl. rewrite Hk, Hs, Hc. repeat split. destruct Hst as [-> | ->]; [left | right]; reflexivity.
+    simpl. rewrite Hk, Hs, Hc. repeat split. destruct Hst as [-> | [-> | ->]]; [left | right; left | right; right]; reflexivity.
   Qed.
 
   (* ---------------------------------------------------------------------------------------- *)
